@@ -17,14 +17,30 @@ Z3_TIMEOUT_MS = int(os.environ.get('PYVC_Z3_TIMEOUT_MS', '90000'))
 CLI_TIMEOUT_S = int(os.environ.get('PYVC_CLI_TIMEOUT_S', '240'))
 
 
+_SK = [0]
+
+
+def skolemize_goal(g):
+    """forall x. phi(x) is valid iff phi(c) is valid for fresh constants c: a goal that is a universal statement is proved for
+    fresh constants, so that the ground lemma schemas see the terms built from them (z3 would skolemize the negated goal the
+    same way, but only after the instances have been generated)"""
+    while z3.is_quantifier(g) and g.is_forall():
+        n = g.num_vars()
+        _SK[0] += 1
+        consts = [z3.Const('sk!{}!{}'.format(g.var_name(i), _SK[0]), g.var_sort(i)) for i in range(n)]
+        g = z3.substitute_vars(g.body(), *reversed(consts))
+    return g
+
+
 def to_smt2(ob, use_lemmas=True):
     s = z3.Solver()
     for h in ob.hyps:
         s.add(h)
+    goal = skolemize_goal(ob.goal)
     if use_lemmas:
-        for inst in specs.instances(list(ob.hyps), goal=ob.goal):
+        for inst in specs.instances(list(ob.hyps), goal=goal):
             s.add(inst)
-    s.add(z3.Not(ob.goal))
+    s.add(z3.Not(goal))
     return s.to_smt2()
 
 
